@@ -36,7 +36,7 @@ ASSUMPTIONS = ["the only OS-level I/O error injected is a full disk (RLIMIT_FSIZ
 
 TEXTS = ["hello", "µL of Müller's buffer", "ÿ±½ end", "  padded  ", "a\nb\n\nc", "x" * 60, "tab\there", "semi-colon free", "€ not latin-1"]
 GOOD_NAMES = ["out.gwl", "OUT.GWL", "my worklist.gwl", "a.b.gwl", "second.Gwl", "µ.gwl", "sub dir/in dir.gwl"]
-BAD_NAMES = ["out.txt", "worklist", "gwl", "out.gw", "out.csv", "plate7.gwl.d/notes.txt", "run.GWL/out"]
+BAD_NAMES = ["out.txt", "worklist", "gwl", "out.gw", "out.csv", "plate7.gwl.d/notes.txt", "run.GWL/out", "plate_3", "run7.csv"]
 
 
 class FileSizeLimit:
@@ -279,6 +279,30 @@ def execute(spec, count_lines=False):
                         f.write(pre_bytes)
                     known[op["file"]] = pre_bytes
                     res.outcomes.append("ok")
+                elif k == "with_bad_ctor":
+                    # a worklist *constructed* with a file name that has no .gwl extension: the refusal may come at
+                    # construction or when the with block is left - but it has to come, and somebody else's file under
+                    # that name stays as it is
+                    name = op["file"]
+                    had = read(name)
+                    refused = False
+                    try:
+                        cls = type(wl)
+                        p2 = path_of(name, op.get("path_kind", "str"))
+                        wl2 = cls(p2, max_volume=950) if not op.get("by_keyword") else cls(filepath=p2, max_volume=950)
+                        with wl2:
+                            wl2.comment("one record")
+                    except Exception:  # noqa
+                        refused = True
+                    res.outcomes.append("refused" if refused else "ok")
+                    if not refused:
+                        fail("C17.refuse", i, op, "ok", f"a worklist constructed with the file name {name!r} (no .gwl extension) "
+                                                        f"left its with block without any refusal")
+                    elif read(name) != had:
+                        fail("C17.refuse", i, op, "refused", f"the refused autosave to {name!r} still touched that file")
+                    if name in known:
+                        known[name] = read(name)
+                    check_frame(i, op, {name})
                 elif k == "save":
                     do_save(i, op, (i,))
                 elif k == "with":
@@ -519,6 +543,9 @@ class Program:
                         ops.append(e)
                         sess.step(e)
                         ops.append({"op": "save", "file": name, "path_kind": rng.choice(["str", "Path"])})
+                if rng.random() < 0.06:
+                    ops.append({"op": "with_bad_ctor", "file": rng.choice(["plate_3", "worklist", "out.txt", "gwl", "run7.csv"]),
+                                "path_kind": rng.choice(["str", "Path"]), "by_keyword": rng.random() < 0.3})
                 if rng.random() < 0.15:
                     bad = rng.choice(BAD_NAMES)
                     if rng.random() < 0.5:
